@@ -271,6 +271,9 @@ def rule_gain(repo, tier):
         while isinstance(core, ast.Call) and isinstance(core.func, ast.Attribute) and core.func.attr in ('unsqueeze', 'squeeze'):
             core = core.func.value
         which = 'Qux' if dump(core) == dQux else 'qu' if dump(core) == dqu else None
+        if which is None and isinstance(core, ast.Attribute) and core.attr in ('mT', 'T') and \
+                dump(core.value) == dump(subst(ast.parse('Qt[..., :ns, ns:]', mode='eval').body, sub)):
+            which = 'Qux'       # the Hessian is symmetric: Qxu^T is Qux
         fac = inl.value(c.args[1]) if len(c.args) > 1 else None
         fac_ok = isinstance(fac, ast.Call) and (dotted(fac.func) or '').split('.')[-1] == 'cholesky'
         res.inst({'function': f.fq, 'solve_rhs': src(c.args[0])[:40], 'block': which, 'uses_cholesky_factor': fac_ok}, 'solve' + str(which))
